@@ -3,6 +3,7 @@ import Clikit.Lemmas.C11Markup
 import Clikit.Lemmas.C11Lex
 import Clikit.Lemmas.C11Output
 import Clikit.Lemmas.C11Indent
+import Clikit.Lemmas.C11Balanced
 /-!
 # C11 - decoration changes only the look: same text, right codes, none when plain
 
@@ -270,6 +271,85 @@ theorem scope_restores (p : Prog) (i : Ind) :
   intro t inc n body
   rw [exec_eq_lexical]
 
+/-! ## The hypotheses are decided on the real messages and styles
+
+`Balanced`, `ESC ∉ msg`, `'\\' ∉ msg` and `expectedCodes s = some cs` are facts about the generated
+messages, about what pastel makes of their tags (the resolver) and about the real `Style`
+objects.  `Model/Markup.lean` and `Model/Style.lean` contain executable deciders (`balancedB`,
+`cleanB`, `messageOkB`, `specCodes`); the driver evaluates them on every generated message with
+the resolver pastel supplied (`c11.render` / `c11.write`, answer field `wf`) and on every style
+of the exhaustive table (`c11.sgr`, field `spec`), and the correspondence compares the answers
+with `true` resp. with the oracle's own code table. -/
+
+/-- `balancedB` decides "balanced style tags" -/
+theorem balanced_decides (rv : Resolver) (toks : List Tok) :
+    balancedB rv toks = true ↔ Balanced rv toks :=
+  balancedB_iff rv toks
+
+/-- `messageOkB` decides exactly the three hypotheses of `message_balanced` -/
+theorem message_ok_decides (rv : Resolver) (msg : Str) :
+    messageOkB rv msg = true ↔
+      (ESC ∉ msg ∧ '\\' ∉ msg ∧ Balanced rv (seg (lastOr ' ' msg) (lex msg))) :=
+  messageOkB_iff rv msg
+
+/-- `balanced_text` with its hypothesis decided -/
+theorem balanced_text_decided (rv : Resolver) (toks : List Tok) (hb : balancedB rv toks = true)
+    (st : Stack) :
+    render rv false st toks = .ok (texts rv toks, st) ∧
+    ∃ o, render rv true st toks = .ok (o, st) ∧ (EscFree toks → stripAnsi o = texts rv toks) :=
+  balanced_text rv toks ((balancedB_iff rv toks).1 hb) st
+
+/-- `message_balanced` and `message_strip_eq_plain` with all hypotheses decided: for a message the
+decider accepts, on every initial stack, plain rendering = stripped decorated rendering = the
+tag-stripped text, never an error, stack unchanged, and no escape byte in the plain rendering. -/
+theorem message_balanced_decided (rv : Resolver) (st : Stack) (msg : Str)
+    (h : messageOkB rv msg = true) :
+    plainFormat rv st msg =
+      .ok (if hasTag (lex msg) then texts rv (pieces msg) else msg, st) ∧
+    stripRes (ansiFormat rv st msg none) = plainFormat rv st msg ∧
+    ESC ∉ (if hasTag (lex msg) then texts rv (pieces msg) else msg) := by
+  obtain ⟨he, hb, hbal⟩ := (messageOkB_iff rv msg).1 h
+  obtain ⟨h1, h2⟩ := message_balanced rv st msg he hb hbal
+  refine ⟨h1, message_strip_eq_plain rv st msg he hb, ?_⟩
+  split
+  · intro hm
+    obtain ⟨t, ht, hl, _⟩ := texts_mem rv _ ESC hm
+    exact escFree_pieces msg he _ t ht hl
+  · exact he
+
+/-- `indent_lines_rendered` with its hypotheses on the text decided -/
+theorem indent_lines_rendered_decided (rv : Resolver) (st st' : Stack) (n : Nat) (s o : Str)
+    (h : cleanB s = true) :
+    (plainFormat rv st (indentText n s) = .ok (o, st') → LinesIndented n o) ∧
+    (ansiFormat rv st (indentText n s) none = .ok (o, st') → LinesIndented n (stripAnsi o)) := by
+  obtain ⟨he, hb⟩ := (cleanB_iff s).1 h
+  obtain ⟨h1, h2⟩ := indent_lines_rendered rv st st' n s o hb
+  exact ⟨h1, h2 he⟩
+
+theorem specColour_eq (base : Nat) (o : Option Str) : specColour base o = colourCode base o := by
+  cases o <;> rfl
+
+/-- the executable specification the driver answers is the specification of `sgr_exact` -/
+theorem spec_codes_decides (s : Style) : specCodes s = expectedCodes s := by
+  have ha : specAttrCode = attrCode := by funext a; cases a <;> rfl
+  have ho : specAttrOrder = attrOrder := rfl
+  simp only [specCodes, expectedCodes, specColour_eq, ha, ho]
+  cases colourCode 30 s.fg <;> cases colourCode 40 s.bg <;> rfl
+
+/-- `sgr_exact` with its hypothesis in the executable form the driver evaluates on every style of
+the table -/
+theorem sgr_exact_decided (s : Style) (cs : List Nat) (h : specCodes s = some cs) (text : Str) :
+    ∃ ps, convert s = .ok ps ∧ codes ps = cs ∧ Style.apply ps text = wrap cs text ∧
+      (∀ reg, register reg s = .ok (dictSet s.tag ps reg) ∧
+              dictGet? s.tag (dictSet s.tag ps reg) = some ps) ∧
+      (∀ (rv : Resolver) (t t' : Str) (st : Stack), rv t = .style ps → rv t' = .style ps →
+          render rv true st [.open t, .text text, .close t'] =
+            .ok (if text.isEmpty then [] else wrap cs text, st)) ∧
+      (∀ (rv : Resolver) (st : Stack), hasTag (lex text) = false →
+          ansiFormat rv st text (some s) =
+            .ok (if (unescape text).isEmpty then [] else wrap cs (unescape text), st)) :=
+  sgr_exact s cs (by rw [← spec_codes_decides]; exact h) text
+
 /-! ## Non-vacuity -/
 
 /-- red + bold + underlined: codes 31, 1, 4 in this order, `ESC[31;1;4mT ESC[0m` -/
@@ -323,5 +403,54 @@ example :
         { out := 1, err := 0 } =
       ([(false, [' ', ' ', ' ', ' ', 'a', '\n']), (false, [' ', 'b', '\n'])], { out := 1, err := 0 }, false) := by
   decide
+
+/-! ### every hypothesis of every theorem above is satisfiable (instances through the theorems) -/
+
+private def exMsg : Str :=
+  ['x', '<', 'i', '>', 'a', '<', 'b', '>', 'c', '<', '/', 'b', '>', '<', '/', '>', 'z', '<', 'q', '>']
+
+/-- the decider accepts the example message: no ESC, no backslash, balanced pieces -/
+example : messageOkB exResolver exMsg = true := by decide
+
+/-- ... so `message_balanced` (all three hypotheses) applies to it -/
+example : plainFormat exResolver [] exMsg = .ok (['x', 'a', 'c', 'z', '<', 'q', '>'], []) := by
+  have h := (message_balanced_decided exResolver [] exMsg (by decide)).1
+  rw [h]
+  rfl
+
+/-- the decider rejects wrongly nested and unclosed tags -/
+example : balancedB exResolver [.open ['i'], .close ['b']] = false ∧
+    balancedB exResolver [.open ['i'], .text ['a']] = false ∧
+    balancedB exResolver [.closeAny] = false := by decide
+
+/-- `strip_eq_plain`: an ESC-free token list -/
+example : stripRes (render exResolver true [] [.text ['x'], .open ['i'], .text ['a'], .closeAny]) =
+    render exResolver false [] [.text ['x'], .open ['i'], .text ['a'], .closeAny] :=
+  strip_eq_plain exResolver _ [] (by unfold EscFree; decide)
+
+/-- `plain_no_escape`: a run that succeeds -/
+example : ESC ∉ (['x', 'a'] : Str) :=
+  (plain_no_escape exResolver [.text ['x'], .open ['i'], .text ['a'], .closeAny] [] [] ['x', 'a'] rfl).2.2
+    (by unfold EscFree; decide)
+
+/-- `message_strip_eq_plain`: a message without ESC and backslash -/
+example : stripRes (ansiFormat exResolver [] exMsg none) = plainFormat exResolver [] exMsg :=
+  message_strip_eq_plain exResolver [] exMsg (by decide) (by decide)
+
+/-- `sgr_exact`: red, bold -/
+example : ∃ ps, convert { fg := some ['r', 'e', 'd'], bold := true } = .ok ps ∧ codes ps = [31, 1] := by
+  obtain ⟨ps, h1, h2, _⟩ := sgr_exact_decided { fg := some ['r', 'e', 'd'], bold := true } [31, 1] (by decide) []
+  exact ⟨ps, h1, h2⟩
+
+/-- `line_methods_newline`: a VERBOSE message on a verbose plain output passes the gate -/
+example : ({ fmt := .plain, formatOutput := false, verbosity := 1 } : Out).call exResolver .writeLineRaw
+      ['a', '\n', '\n'] (some 1) =
+    .ok (['a', '\n'], { fmt := .plain, formatOutput := false, verbosity := 1 }) :=
+  (line_methods_newline exResolver { fmt := .plain, formatOutput := false, verbosity := 1 } ['a', '\n', '\n'] (some 1)
+    (by decide)).2.1
+
+/-- `indent_lines_rendered`: a text without backslash and ESC -/
+example : LinesIndented 2 [' ', ' ', 'a', '\n', '\n', ' ', ' ', 'b'] :=
+  (indent_lines_rendered_decided exResolver [] [] 2 ['a', '\n', '\n', 'b'] _ (by decide)).1 rfl
 
 end Clikit.Props.C11
